@@ -8,15 +8,15 @@ open GoImap GoImap.ClientConc
 
 def kindChar : Kind → Char
   | .noop => 'N' | .fetch => 'F' | .login => 'L' | .append => 'A'
-  | .search => 'S' | .enable => 'E' | .idle => 'I'
+  | .search => 'S' | .enable => 'E' | .idle => 'I' | .login2 => 'M'
 
 def kindOfChar? : Char → Option Kind
   | 'N' => some .noop | 'F' => some .fetch | 'L' => some .login | 'A' => some .append
-  | 'S' => some .search | 'E' => some .enable | 'I' => some .idle | _ => none
+  | 'S' => some .search | 'E' => some .enable | 'I' => some .idle | 'M' => some .login2 | _ => none
 
 def kindName : Kind → String
   | .noop => "NOOP" | .fetch => "FETCH" | .login => "LOGIN" | .append => "APPEND"
-  | .search => "SEARCH" | .enable => "ENABLE" | .idle => "IDLE"
+  | .search => "SEARCH" | .enable => "ENABLE" | .idle => "IDLE" | .login2 => "LOGIN"
 
 def showAct : SrvAct → String
   | .reply .ok true => "Ro" | .reply .ok false => "Rn"
@@ -55,6 +55,7 @@ def wireTok (s : St) (e : Nat × WireKind) : String :=
   match e.2 with
   | .line => s!"{e.1}:T{r.ltag}:{kindName r.kind}"
   | .head => s!"{e.1}:T{r.ltag}:{kindName r.kind}:lit"
+  | .head2 => s!"{e.1}:lit2"
   | .tail => s!"{e.1}:tail"
   | .done => s!"{e.1}:DONE"
 
@@ -100,7 +101,7 @@ def entryLabel (v : Variant) (s s' : St) (t : Nat) : String :=
       | .close => "srv=close"
       | .rerr => "srv=rerr"
       | _ => "srv=drop"
-  | i :: _ => (label v i).getD "-"
+  | i :: _ => (labelAt v s i).getD "-"
 
 structure Trace where
   s : St
@@ -134,7 +135,7 @@ def pickW {α} (x : Nat) (l : List (α × Nat)) : Option α :=
   go l r
 
 def kindWeights : List (Kind × Nat) :=
-  [(.noop, 3), (.fetch, 2), (.login, 3), (.append, 2), (.search, 1), (.enable, 1), (.idle, 2)]
+  [(.noop, 3), (.fetch, 2), (.login, 2), (.login2, 2), (.append, 2), (.search, 1), (.enable, 1), (.idle, 2)]
 
 def genKinds (x : Nat) (n : Nat) : List Kind × Nat :=
   (List.range n).foldl (fun (acc : List Kind × Nat) _ =>
@@ -159,12 +160,12 @@ def genScenario (x : Nat) : Scenario × Nat :=
 
 def silentHead (s : St) (t : Nat) : Bool :=
   match s.prog t with
-  | i :: _ => (match i with | .srv _ => false | _ => (label fixed i).isNone)
+  | i :: _ => (match i with | .srv _ => false | _ => (labelAt fixed s i).isNone)
   | [] => false
 
 def silentHeadV (v : Variant) (s : St) (t : Nat) : Bool :=
   match s.prog t with
-  | i :: _ => (match i with | .srv _ => false | _ => (label v i).isNone)
+  | i :: _ => (match i with | .srv _ => false | _ => (labelAt v s i).isNone)
   | [] => false
 
 /-- a submission is under way: some thread holds encMutex or sits between registering a command
@@ -342,6 +343,7 @@ def variantOf? : String → Option Variant
   | "f21" => some Legacy.f21
   | "f26idle" => some Legacy.f26idle
   | "f26reorderOnly" => some Legacy.f26reorderOnly
+  | "lateContReq" => some Legacy.lateContReq
   | "f26enabled" => some Legacy.f26enabled
   | _ => none
 
